@@ -87,6 +87,25 @@ def setValue (v : List UInt8) (bo bi value nb : Int) : Nat :=
 def SetDomain (n : Nat) (bo bi value nb : Int) : Prop :=
   InWindow n bo bi nb ∧ 0 ≤ value ∧ value.toNat < 2 ^ nb.toNat ∧ value ≤ 9223372036854775807
 
+instance (n : Nat) (bo bi value nb : Int) : Decidable (SetDomain n bo bi value nb) := by
+  unfold SetDomain; exact inferInstance
+
+/-- `binary_set` on flat bytes: the (at most 9) bytes touched by the window are read as one
+    number, the window is cleared and the value put in, and the bytes are written back. Its numeric
+    meaning is `setValue`. -/
+def setBytes (v : List UInt8) (bo bi value nb : Nat) : List UInt8 :=
+  let last := (8 * bo + bi + nb + 7) / 8
+  let cnt := last - bo
+  let ba := cnt * 8 - bi - nb
+  let cur := beNat ((v.drop bo).take cnt)
+  let W : Nat := 340282366920938463463374607431768211456
+  let newValue := (cur &&& (W - 1 - ((2 ^ nb - 1) * 2 ^ ba) % W)) ||| ((value * 2 ^ ba) % W)
+  v.take bo ++ beBytes cnt newValue ++ v.drop last
+
+def binarySet (v : List UInt8) (bo bi value nb : Int) : Outcome (List UInt8) :=
+  if SetDomain v.length bo bi value nb then .ok (setBytes v bo.toNat bi.toNat value.toNat nb.toNat)
+  else .err .invalidArgument
+
 def binarySlice (v : List UInt8) (start stop : Int) : Outcome (List UInt8) :=
   if 0 ≤ start ∧ start ≤ stop ∧ stop ≤ v.length then
     .ok ((v.drop start.toNat).take (stop.toNat - start.toNat))
@@ -98,8 +117,6 @@ def AppendDomain (n : Nat) (value nb : Int) : Prop :=
 
 instance (n : Nat) (value nb : Int) : Decidable (AppendDomain n value nb) := by
   unfold AppendDomain; exact inferInstance
-instance (n : Nat) (bo bi value nb : Int) : Decidable (SetDomain n bo bi value nb) := by
-  unfold SetDomain; exact inferInstance
 
 /-- `binary_append` on its documented domain appends the `nb` big-endian bytes of the value -/
 def binaryAppend (v : List UInt8) (value nb : Int) : Outcome (List UInt8) :=
@@ -147,13 +164,16 @@ def compare (pred : Int → Int → Bool) (a b : List UInt8) (width : Int) : Out
     else .ok none
   else .err .invalidArgument
 
+/-- walk the mask and the data in lockstep, keeping the `w`-byte lanes whose mask byte is non-zero -/
+def takeChunks (w : Nat) : List UInt8 → List UInt8 → List UInt8
+  | [], _ => []
+  | m :: ms, d => (if m ≠ 0 then d.take w else []) ++ takeChunks w ms (d.drop w)
+
 /-- `vector_take`: the lanes whose mask byte is non-zero, in order -/
 def vectorTake (data : List UInt8) (width : Int) (mask : List UInt8) : Outcome (Option (List UInt8)) :=
   if WidthOK width then
     let w := width.toNat
-    if data.length % w = 0 ∧ mask.length = data.length / w then
-      .ok (some ((List.range mask.length).flatMap fun i =>
-        if mask.getD i 0 ≠ 0 then (data.drop (i * w)).take w else []))
+    if data.length % w = 0 ∧ mask.length = data.length / w then .ok (some (takeChunks w mask data))
     else .ok none
   else .err .invalidArgument
 
